@@ -91,7 +91,14 @@ class DummyFlag:
 
 DEEP_TERM = ('(declare-const p Bool)\n(assert ' + '(not ' * 1500 + 'p' +
              ')' * 1500 + ')\n(check-sat)\n')
-ODD_TEXTS = [DEEP_TERM, ')', '(', '(assert (x)', '(a))', '(a)) (b)', '"unterminated',
+# characters that other notions of white space include (form feed, vertical
+# tab, file/group/record/unit separators, NEL, no-break space, Unicode
+# spaces): not white space for SMT-LIB, but no reason to abort either
+ODD_WS = ['\x0c', '\x0b', '\x1c', '\x1d', '\x1e', '\x1f', '\x85', '\xa0',
+          '\u2003', '\u3000', '\ufeff', '\x00', '\x7f']
+ODD_TEXTS = [DEEP_TERM] + [
+    f'(declare-const x Int){c}(assert (> x{c} 0))\n(check-sat){c}' for c in ODD_WS
+] + [')', '(', '(assert (x)', '(a))', '(a)) (b)', '"unterminated',
              '|unterminated', 'a b c', '()', '', '(()', '())', ';only comment',
              '(assert true) )', '(declare-const x Int', ') (check-sat)',
              '(set-logic', '"s" (check-sat)', '(x)(y)(z))))']
